@@ -37,7 +37,10 @@ iovars == <<file, everBlob, active, limit, api, post, postId, strict>>
 NoBlob == -1
 
 \* size    : reserved length (the `size` counter of the file object)
-\* chunks  : set of [off, len, done] append writes
+\* chunks  : set of [off, len, done] append writes at or after cpos
+\* cpos    : end of the contiguous completely written prefix (chunks inside it are dropped:
+\*           long concurrent traces stay linear to validate)
+\* base    : length of the file when it was opened (0: created in this execution)
 \* synced  : the `synced_size` counter
 \* dur     : length of the prefix that is durable (survives power loss)
 \* pend    : sequence of [seen, upto]: syncs in flight (size read at begin, contiguous
@@ -48,7 +51,7 @@ NoBlob == -1
 \* descr   : index files: blob size recorded in the header
 NewFile(kind, id, loc, len) ==
   [kind |-> kind, id |-> id, loc |-> loc, size |-> len, chunks |-> {}, synced |-> len, dur |-> len,
-   pend |-> <<>>, acked |-> 0, written |-> FALSE, descr |-> 0, base |-> len, recs |-> <<>>]
+   pend |-> <<>>, acked |-> 0, written |-> FALSE, descr |-> 0, base |-> len, cpos |-> len, recs |-> <<>>]
 
 Exists(f) == f \in DOMAIN file
 IsBlob(f) == Exists(f) /\ file[f].kind = "blob"
@@ -58,7 +61,7 @@ RECURSIVE ContigFrom(_, _)
 ContigFrom(cs, pos) ==
   LET nxt == {c \in cs : c.off = pos /\ c.done} IN
   IF nxt = {} THEN pos ELSE LET c == CHOOSE c \in nxt : TRUE IN ContigFrom(cs, pos + c.len)
-Contig(f) == ContigFrom(file[f].chunks, file[f].base)
+Contig(f) == ContigFrom(file[f].chunks, file[f].cpos)
 
 BlobName(id) == "b" \o ToString(id)
 BlobOfIndex(f) == BlobName(file[f].id)
@@ -105,8 +108,9 @@ WriteBegin(f, off, len) ==
 WriteDone(f, off, len) ==
   /\ Exists(f)
   /\ [off |-> off, len |-> len, done |-> FALSE] \in file[f].chunks
-  /\ file' = [file EXCEPT ![f].chunks = (@ \ {[off |-> off, len |-> len, done |-> FALSE]})
-                                           \cup {[off |-> off, len |-> len, done |-> TRUE]}]
+  /\ LET cs == (file[f].chunks \ {[off |-> off, len |-> len, done |-> FALSE]}) \cup {[off |-> off, len |-> len, done |-> TRUE]}
+         np == ContigFrom(cs, file[f].cpos)
+     IN  file' = [file EXCEPT ![f].chunks = {c \in cs : c.off >= np}, ![f].cpos = np]
   /\ UNCHANGED <<everBlob, active, limit, api, strict>>
 
 \* positional write: only index files (header rewrite), never a blob (C07)
@@ -169,7 +173,7 @@ Remove(f) ==
 \* after the previously acknowledged record of this blob
 Appended(f, off, len) ==
   /\ IsBlob(f)
-  /\ [off |-> off, len |-> len, done |-> TRUE] \in file[f].chunks
+  /\ \/ off >= file[f].base /\ off + len <= file[f].cpos
      \/ \E c \in file[f].chunks : c.done /\ c.off <= off /\ off + len <= c.off + c.len
   /\ file' = [file EXCEPT ![f].acked = off + len, ![f].recs = Append(@, [off |-> off, len |-> len])]
   /\ UNCHANGED <<everBlob, active, limit, api, strict>>
